@@ -576,6 +576,11 @@ impl<'alloc, 's, 'doc> FieldsInSetCanMerge<'alloc, 's, 'doc> {
     }
 }
 
+/// Nesting of selection sets that validation follows through fields, inline fragments
+/// and fragment spreads. The parser limits nesting within one definition only: a chain of
+/// fragments that each nest fields adds up to arbitrary depth. Same limit as `walk_selections`.
+const SELECTION_DEPTH_LIMIT: usize = 500;
+
 pub(crate) fn validate_selection_set(
     diagnostics: &mut DiagnosticList,
     document: &ExecutableDocument,
@@ -583,6 +588,14 @@ pub(crate) fn validate_selection_set(
     selection_set: &SelectionSet,
     context: &mut OperationValidationContext<'_>,
 ) {
+    if context.selection_depth > SELECTION_DEPTH_LIMIT {
+        if !context.selection_depth_exceeded {
+            context.selection_depth_exceeded = true;
+            diagnostics.push(None, super::diagnostics::DiagnosticData::RecursionError {});
+        }
+        return;
+    }
+    context.selection_depth += 1;
     for selection in &selection_set.selections {
         match selection {
             executable::Selection::Field(field) => {
@@ -608,4 +621,5 @@ pub(crate) fn validate_selection_set(
             }
         }
     }
+    context.selection_depth -= 1;
 }
